@@ -316,3 +316,31 @@ Proof.
     destruct (m_batch m1 (ord adds) dels), (m_batch m2 (ord adds) dels); simpl; try contradiction; split; auto.
   - split; [reflexivity | assumption].
 Qed.
+
+(* ---------------------------------------------------------------- the boolean relation used by Run/C15.v *)
+
+Lemma vlist_eqb_eq : forall l1 l2, vlist_eqb l1 l2 = true <-> l1 = l2.
+Proof.
+  induction l1 as [|x l1 IH]; destruct l2 as [|y l2]; simpl; split; intro H; try reflexivity; try discriminate.
+  - apply andb_true_iff in H. destruct H as [A B]. apply bytes_eqb_eq in A. apply IH in B. congruence.
+  - inversion H; subst. rewrite bytes_eqb_refl. simpl. apply IH. reflexivity.
+Qed.
+
+Lemma perm_b_iff : forall l1 l2, perm_b l1 l2 = true <-> Permutation l1 l2.
+Proof.
+  induction l1 as [|x r IH]; intro l2; simpl.
+  - destruct l2 as [|y l2]; split; intro H; try reflexivity; try discriminate.
+    apply Permutation_nil in H. discriminate.
+  - destruct (remove_first x l2) as [l2'|] eqn:E.
+    + destruct (remove_first_split x l2 l2' E) as [a [b [A [B _]]]]. subst. rewrite IH. split; intro H.
+      * apply Permutation_cons_app. assumption.
+      * eapply Permutation_cons_app_inv. eassumption.
+    + split; [discriminate|]. intro H. exfalso.
+      assert (I : In x l2) by (eapply Permutation_in; [exact H | left; reflexivity]).
+      apply remove_first_in in I. congruence.
+Qed.
+
+Lemma upto_new_b_iff : forall p l1 l2, upto_new_b p l1 l2 = true <-> upto_new p l1 l2.
+Proof.
+  intros. unfold upto_new_b, upto_new. rewrite andb_true_iff, vlist_eqb_eq, perm_b_iff. tauto.
+Qed.
